@@ -143,6 +143,7 @@ BOM_WRITERS = {"utf-16": "utf-16", "utf-32": "utf-32"}
 KF_C1 = "C08-c1-controls-via-charref"
 KF_NONCHAR = "C08-noncharacters-in-attributes"
 KF_PICKLE = "C08-pickle-rewrites-declaration"
+KF_HTML5 = "C08-html5-formatter-empty-charset"
 ASCII_SPACES = " \n\t\x0c\r"
 
 
@@ -814,24 +815,24 @@ def stream_setup(ctx, batch):
 ENTRIES = ["encode", "prettify", "encode_contents", "encode_contents_body"]
 
 
-def call_entry(soup, entry, enc):
+def call_entry(soup, entry, enc, formatter="minimal"):
     if entry == "encode":
-        return soup.encode(enc)
+        return soup.encode(enc, formatter=formatter)
     if entry == "prettify":
-        return soup.prettify(enc)
+        return soup.prettify(enc, formatter=formatter)
     if entry == "encode_contents":
-        return soup.encode_contents(encoding=enc)
-    return soup.body.encode_contents(encoding=enc)
+        return soup.encode_contents(encoding=enc, formatter=formatter)
+    return soup.body.encode_contents(encoding=enc, formatter=formatter)
 
 
-def rendered_ref(soup, entry, enc):
+def rendered_ref(soup, entry, enc, formatter="minimal"):
     if entry == "encode":
-        return soup.decode(eventual_encoding=enc)
+        return soup.decode(eventual_encoding=enc, formatter=formatter)
     if entry == "prettify":
-        return soup.decode(indent_level=0, eventual_encoding=enc)
+        return soup.decode(indent_level=0, eventual_encoding=enc, formatter=formatter)
     if entry == "encode_contents":
-        return soup.decode_contents(eventual_encoding=enc)
-    return soup.body.decode_contents(eventual_encoding=enc)
+        return soup.decode_contents(eventual_encoding=enc, formatter=formatter)
+    return soup.body.decode_contents(eventual_encoding=enc, formatter=formatter)
 
 
 def expected_bom_codec(out, enc):
@@ -843,7 +844,7 @@ def expected_bom_codec(out, enc):
     return n
 
 
-def check_doc(ctx, batch, recipe, enc, entry, stream, history=None):
+def check_doc(ctx, batch, recipe, enc, entry, stream, history=None, formatter="minimal"):
     """oracle (a)-(d) for one document, one target encoding, one entry point. Returns the violations found (for replay)."""
     e = E()
     NS = e["el"].NavigableString
@@ -853,6 +854,9 @@ def check_doc(ctx, batch, recipe, enc, entry, stream, history=None):
     case = {"op": "doc", "recipe": recipe, "encoding": enc, "entry": entry}
     if history:
         case["history"] = history
+    if formatter != "minimal":
+        case["formatter"] = formatter   # entity substitution by name on top of the charset substitution (oracle only)
+        batch = None
 
     def viol(what, expected=None, observed=None, kf=None, kind=None):
         found.append((what, expected, observed, kf))
@@ -862,7 +866,7 @@ def check_doc(ctx, batch, recipe, enc, entry, stream, history=None):
     pretty = entry == "prettify"
     # (a) bytes, always
     try:
-        out = call_entry(soup, entry, enc)
+        out = call_entry(soup, entry, enc, formatter)
     except UnicodeError as ex:
         viol(f"{entry}({enc!r}) raised {type(ex).__name__} instead of writing a numeric character reference",
              expected="bytes", observed=repr(ex)[:300], kind="raises:" + entry)
@@ -877,7 +881,7 @@ def check_doc(ctx, batch, recipe, enc, entry, stream, history=None):
         viol(f"{entry}({enc!r}) did not return bytes", observed=type(out).__name__)
         return found
     # unencodable characters appear as decimal references, everything else as rendered
-    ref = f.xcr_ref(rendered_ref(soup, entry, enc))
+    ref = f.xcr_ref(rendered_ref(soup, entry, enc, formatter))
     # the codec's round-trip law on the very string that is encoded (strict, no bs4 involved): CPython's stateful codecs
     # (hz: `~` escaping lost after mode switches) can fail it on a long string although every character passes alone
     try:
@@ -945,12 +949,15 @@ def check_doc(ctx, batch, recipe, enc, entry, stream, history=None):
         m2 = again.find("meta")
         plain = bool(PLAIN_NAME.match(enc))   # a name a reader's regex can take back verbatim (no white space, `/ ; ' " < > &`)
         both = bool(info.get("both"))
+        # classifier of the html5-formatter finding, from the case: that formatter, an HTML5-style declaration, empty old value
+        kf_h = KF_HTML5 if formatter == "html5" and style == "charset" and info.get("orig") == "" else None
         ctx.count("doc:name:" + ("digit-leading" if enc[:1].isdigit() else "metachar" if re.search(r"[^A-Za-z0-9_\- ]", enc) else
                                  "canonical" if enc in ENCODINGS else "alias"))
         if style == "charset" or plain:
             got = declared_in(m2, style) if m2 is not None else None
             if got != enc:
-                viol("the <meta> declaration in the output does not name the target encoding (as given)", expected=enc, observed=got)
+                viol("the <meta> declaration in the output does not name the target encoding (as given)", expected=enc, observed=got,
+                     kf=kf_h)
         if both and plain and m2 is not None and declared_in(m2, "content") != enc:
             viol("a <meta> carrying both declaration styles: the one in `content` still names the old encoding",
                  expected=enc, observed=declared_in(m2, "content"))
@@ -968,7 +975,7 @@ def check_doc(ctx, batch, recipe, enc, entry, stream, history=None):
             want = expected_bom_codec(out, enc)
             if oen != want:
                 viol("re-parsing the output auto-detects a different encoding (compared through codecs.lookup)", expected=want,
-                     observed=oe)
+                     observed=oe, kf=kf_h)
             ctx.count("doc:redetect:" + ("bom" if f.norm in ("utf-16", "utf-32") else "declared"))
     elif style == "none" and f.norm in ("utf-16", "utf-32") and entry != "encode_contents_body":
         oe = BS(out, "html.parser").original_encoding
@@ -976,6 +983,7 @@ def check_doc(ctx, batch, recipe, enc, entry, stream, history=None):
             viol("re-parsing BOM-carrying output auto-detects a different encoding", expected=expected_bom_codec(out, enc), observed=oe)
         ctx.count("doc:redetect:bom")
     ctx.count(f"doc:entry:{entry}")
+    ctx.count(f"doc:formatter:{formatter}")
     ctx.count(f"doc:meta:{style}")
     ctx.count("doc:enc-kind:" + ("single-byte" if sb_name(enc) else "utf" if f.norm.startswith("utf") else "multi-byte"))
     ctx.case(("doc", json.dumps(recipe, sort_keys=True), enc, entry) if nontrivial else None,
@@ -1115,6 +1123,13 @@ def stream_history(ctx, batch):
 
 def stream_docs(ctx, batch):
     r = ctx.rng("docs")
+    # directed: every formatter x every declaration of NAME_METAS plus an empty HTML5 declaration x a few targets
+    for fm in ("html", "html5"):
+        for meta in NAME_METAS + [dict(markup='<meta charset="">', style="charset", orig="")]:
+            for enc in ("koi8-r", "ascii", "utf-8", "shift_jis", "866"):
+                recipe = {"meta": meta, "items": [{"name": "p", "id": "n1", "attrs": [["title", "é & \"☃\"", None]],
+                                                   "kids": [{"text": "я < é ☃", "bait": None}]}]}
+                check_doc(ctx, batch, recipe, enc, r.choice(ENTRIES[:3]), "docs-formatter", formatter=fm)
     n = ctx.n(2500, 15000)
     for i in range(n):
         enc = pick_encoding(r)
@@ -1123,6 +1138,8 @@ def stream_docs(ctx, batch):
         recipe = gen_recipe(r, enc, ctx)
         for entry in (ENTRIES if i % 3 == 0 else r.sample(ENTRIES, 2)):
             check_doc(ctx, batch, recipe, enc, entry, "docs")
+        if i % 4 == 0:
+            check_doc(ctx, batch, recipe, enc, r.choice(ENTRIES), "docs-formatter", formatter=r.choice(["html", "html5"]))
         e_enc = r.choice([None, None, r.choice(PROP_PYTHON_SPECIFIC), pick_encoding(r), ""])
         check_doc_str(ctx, batch, recipe, e_enc, "docs")
         if len(batch.q) > 3000:
@@ -1369,7 +1386,8 @@ def replay(path):
         print(f"call: {c['entry']}({c['encoding']!r})")
         if c.get("history"):
             print("after:", c["history"])
-        found = check_doc(ctx, None, c["recipe"], c["encoding"], c["entry"], "replay", history=c.get("history"))
+        found = check_doc(ctx, None, c["recipe"], c["encoding"], c["entry"], "replay", history=c.get("history"),
+                          formatter=c.get("formatter", "minimal"))
         for what, exp, obs, kf in found:
             print(("KNOWN-FINDING " + kf if kf else "VIOLATION") + ":", what)
             print("   property demands:", exp)
